@@ -83,7 +83,22 @@ def _validate_path(ob, p, eps_value):
             compared += 1
             if not (abs(x - b) <= 1e-6 * (1 + abs(x))):
                 mism.append((cname, x, b))
-    return dict(ok=not mism, compared=compared, mismatches=mism[:5], num=num)
+    # independent re-check of every identity proved by the normal form: both sides evaluated with 60-digit arithmetic at the witness
+    hp_bad = []; hp_n = 0
+    proved = {c for c, s_, _ in p['clauses'] if s_ == 'proved'}
+    for cname, rv in (p.get('rhs_values') or {}).items():
+        if cname not in proved: continue
+        for a, b in zip(p['values'].get(cname, []), rv):
+            if isinstance(a, A.Inf) or isinstance(b, A.Inf): continue
+            try:
+                x, y = a.evalf(val), A.Frac.of(b).evalf(val)
+            except (ZeroDivisionError, ValueError):
+                continue
+            if x != x or y != y: continue
+            hp_n += 1
+            if abs(x - y) > mpf(10) ** -25 * (1 + abs(x)):
+                hp_bad.append((cname, float(x), float(y)))
+    return dict(ok=not mism, compared=compared, mismatches=mism[:5], num=num, hp_checked=hp_n, hp_bad=hp_bad[:5])
 
 
 def run_ob(args):
@@ -134,6 +149,9 @@ def _run_ob(ob, name, tier, seed, t0):
                 v = _validate_path(ob, p, eps_value)
             except Exception as e:
                 v = dict(ok=None, why='validation crashed: ' + traceback.format_exc()[-800:])
+        if v and v.get('hp_bad'):
+            validation.setdefault('hp_mismatches', []).append((i, v['hp_bad']))
+        if v: validation['hp_checked'] = validation.get('hp_checked', 0) + v.get('hp_checked', 0)
         if v and v.get('ok') is not None:
             validation['points'] += 1; validation['compared'] += v['compared']
             if not v['ok']:
@@ -182,7 +200,7 @@ def _run_ob(ob, name, tier, seed, t0):
         out['details'] = _jsonable({k: v[:3] for k, v in details.items()})
         failed = [c for c, v in verdicts.items() if v == 'failed']
     if gaps and not verdicts: st_ = 'gap'
-    elif validation['mismatches']: st_ = 'engine-mismatch'
+    elif validation['mismatches'] or validation.get('hp_mismatches'): st_ = 'engine-mismatch'
     elif failed: st_ = 'failed'
     elif 'unknown' in verdicts.values(): st_ = 'undecided'
     elif gaps: st_ = 'gap'
